@@ -93,6 +93,11 @@ func (k *Kernel) Signal(node string, sig os.Signal) int {
 	}
 	k.logLocked("SG", 0, 0, node)
 	k.leave()
+	if len(regs) == 0 {
+		// no handler installed: the default action terminates the process
+		k.killNode(node, 130, "signal: default action")
+		return 0
+	}
 	sent := 0
 	for _, r := range regs {
 		match := len(r.sigs) == 0
@@ -235,4 +240,22 @@ func (t *TapeReader) Read(p []byte) (int, error) {
 	n, err := t.R.Read(p)
 	K.leave()
 	return n, err
+}
+
+// killNode terminates a node from outside (default signal action, harness kill).
+//
+//go:norace
+func (k *Kernel) killNode(node string, code int, msg string) {
+	k.enter()
+	for _, n := range k.nodes {
+		if n.Name == node && !n.dead {
+			n.dead = true
+			k.killNodeLocked(n)
+			k.seq++
+			k.Exits = append(k.Exits, ExitRec{Node: node, At: time.Since(k.epoch), Seq: k.seq, Code: code, Msg: msg})
+			k.logLocked("X", int64(code), 0, node)
+		}
+	}
+	k.leave()
+	k.poke()
 }
